@@ -344,6 +344,13 @@ def load_known():
         return json.load(fp)['findings']
 
 
+def theorems_of(module):
+    """names of the Theorem/Example statements of Properties/<module>.v (the proof obligations of a property)"""
+    p = os.path.join(COQ, 'theories', 'Properties', module + '.v')
+    txt = re.sub(r'\(\*.*?\*\)', '', open(p).read(), flags=re.S)
+    return re.findall(r'^(?:Theorem|Example|Definition) (C\d\d_\w+)', txt, flags=re.M)
+
+
 def proof_stage(ctx, module, theorems, extra_targets=()):
     """Step 1+2 of the protocol: regenerate, build the property's closure, check assumptions."""
     bad = hygiene()
